@@ -405,6 +405,8 @@ pub struct DeployCfg {
 }
 
 pub const TRADERS: [&str; 5] = ["alice", "bob", "carol", "dave", "whale"];
+/// two accounts whose (long) addresses agree in their first 48 characters (the mock runtime accepts at most 54) and differ only in the last one
+pub const LONG_TWINS: [&str; 2] = ["wasm1qyqszqgpqyqszqgpqyqszqgpqyqszqgpqyqszqgp7k3a", "wasm1qyqszqgpqyqszqgpqyqszqgpqyqszqgpqyqszqgp7k3b"];
 pub const OTHERS: [&str; 8] = ["liquidator", "owner", "pauser", "newowner", "stranger", "bank", "feepool2", "guardian"];
 
 /// the same address with its first letter in upper case (a different account as far as the runtime is concerned)
@@ -917,6 +919,7 @@ impl World {
                 }
             }
         }
+        v.extend(LONG_TWINS.iter().map(|s| s.to_string()));
         v.extend(OTHERS.iter().map(|s| s.to_string()));
         v.push(self.engine.to_string());
         v.push(self.insurance.to_string());
